@@ -38,6 +38,7 @@ namespace
         ISubject*             sib = nullptr; // sibling allocator of the same kind (foreign pointers, C08)
         std::vector<Handle>   sib_live;
         std::vector<ISubject*> zombies;
+        std::vector<ISubject*> others; // live objects left behind by swap
         std::vector<Handle>   live;
         std::vector<Mark>     marks;
         int                   next_id = 0, next_o = 0;
@@ -71,7 +72,7 @@ namespace
             Ev e("new");
             e.i("o", o).i("src", src).s("r", r).s("fam", x.str("fam")).s("type", x.str("type", "-"));
             e.s("srck", x.str("src", "-")).s("bd", x.str("bd", "-")).b("hi", hi);
-            e.b("mem", x.num("member") != 0).i("N", x.num("N", 0));
+            e.b("mem", x.num("member") != 0).i("N", x.num("N", 0)).b("acached", x.num("cached", 1) != 0);
             e.i("ups", w.up_calls - c0).i("upf", w.up_fails - f0);
             if (s)
             {
@@ -236,6 +237,85 @@ namespace
                 }
             }
             return out + "]";
+        }
+
+        // ---- memory_arena driven directly -------------------------------------------------------
+        void arena_counts(Ev& e, const char* suffix)
+        {
+            long long u = -1, c = -1, cap = -1, nx = -1;
+            cur->arena_counts(u, c, cap, nx);
+            std::string s(suffix);
+            e.i(("asz" + s).c_str(), u).i(("csz" + s).c_str(), c).i(("acap" + s).c_str(), cap).ic(("nbs" + s).c_str(), nx);
+        }
+        void arena_alloc()
+        {
+            if (!cur->is_arena())
+                return;
+            auto&       w  = world();
+            long        c0 = w.up_calls, f0 = w.up_fails;
+            void*       mem = nullptr;
+            std::size_t size = 0;
+            Ev e("ablk");
+            e.i("o", cur->o);
+            arena_counts(e, "0");
+            std::string r = classify([&] { cur->arena_alloc(mem, size); });
+            long blk = -1, off = 0;
+            if (mem)
+                w.project(mem, blk, off);
+            e.s("r", r).i("b", blk).i("off", off).u("size", size).i("ups", w.up_calls - c0).i("upf", w.up_fails - f0);
+            arena_counts(e, "1");
+            e.b("owns", mem ? cur->arena_owns(mem) : false);
+        }
+        void arena_dealloc()
+        {
+            if (!cur->is_arena())
+                return;
+            long long u = 0, c = 0, cap = 0, nx = 0;
+            cur->arena_counts(u, c, cap, nx);
+            if (u == 0)
+                return; // precondition: there is a block in use
+            auto& w  = world();
+            long  d0 = w.up_frees;
+            Ev    e("dblk");
+            e.i("o", cur->o);
+            arena_counts(e, "0");
+            std::string r = classify([&] { cur->arena_dealloc(); });
+            e.s("r", r).i("ufs", w.up_frees - d0);
+            arena_counts(e, "1");
+        }
+        void arena_owns(const Cmd& c)
+        {
+            if (!cur->is_arena())
+                return;
+            // probe addresses of live upstream blocks of this arena's source: header, first and last
+            // usable byte, one past the end
+            auto& w = world();
+            std::vector<std::size_t> mine;
+            for (std::size_t i = 0; i < w.blocks.size(); ++i)
+                if (w.blocks[i].live && w.blocks[i].src == cur->src)
+                    mine.push_back(i);
+            if (mine.empty())
+                return;
+            std::size_t bi   = mine[static_cast<std::size_t>(c.arg(0)) % mine.size()];
+            Block&      b    = w.blocks[bi];
+            long        where = static_cast<long>(c.arg(1)) % 4;
+            std::size_t off   = where == 0 ? 0 : where == 1 ? cur->header() : where == 2 ? b.size - 1 : b.size;
+            bool        res   = cur->arena_owns(b.base + off);
+            Ev("aown").i("o", cur->o).i("b", static_cast<long long>(bi)).u("off", off).u("bsize", b.size).b("res", res);
+        }
+        void arena_swap(const Cmd& c)
+        {
+            if (!cur->is_arena())
+                return;
+            ISubject* t = create(c.arg(0) != 0);
+            if (!t)
+                return;
+            std::string r = classify([&] { cur->arena_swap(*t); });
+            Ev("swap").i("a", cur->o).i("c", t->o).s("r", r);
+            // keep working with the object that now holds our blocks; the other one (holding the fresh
+            // state) is destroyed at the end like any other live object
+            others.push_back(cur);
+            cur = t;
         }
 
         // take every node the pool reports as free through the composable interface (never grows):
@@ -569,6 +649,14 @@ namespace
                         do_move(c, true);
                     else if (op == "kz")
                         kill_zombies();
+                    else if (op == "ab")
+                        arena_alloc();
+                    else if (op == "db")
+                        arena_dealloc();
+                    else if (op == "own")
+                        arena_owns(c);
+                    else if (op == "sw")
+                        arena_swap(c);
                     else if (op == "sweep")
                         sweep();
                     else if (op == "drain")
@@ -612,6 +700,9 @@ namespace
                 if (sib)
                     destroy(sib, false);
                 destroy(cur, false);
+                for (auto o : others)
+                    destroy(o, false);
+                others.clear();
                 kill_zombies();
                 cur = nullptr;
                 live.clear(); // whatever the script leaked on purpose went away with the allocator
